@@ -26,6 +26,8 @@ def world(crates, mode='on'):
 # pure query functions of the model crate that are summarised (state merging) instead of forking their callers
 MERGE_DEFAULT = ['>::can_reach', '>::dead_head_time_between', '>::dead_head_distance_between', '>::idle_time_between',
                  '>::minimal_duration_between_nodes', '>::distance', '>::travel_time']
+CROSSCHECK = os.environ.get('VERIF_CROSSCHECK', '1' if os.environ.get('VERIF_TIER') == 'thorough' else '0') == '1'
+CROSSCHECK_PER_JOB = int(os.environ.get('VERIF_CROSSCHECK_PER_JOB', '12'))
 class JobCtx:
     """one symbolic-execution job inside a worker process"""
     def __init__(self, name, crates, mode='on', extra_models=(), **exkw):
@@ -37,8 +39,8 @@ class JobCtx:
         self.t0 = time.time()
         self.obligations = 0; self.discharged = 0; self.queries = 0; self.solver_s = 0.0
         self.cex = []; self.inconclusive = []; self.samples = []; self.reached = 0; self.panics = {}
-        self.covers = set(); self.paths = 0; self.notes = []; self.validated = 0; self.witnesses = []; self.fam = {}
-    COUNTERS = ('obligations', 'discharged', 'queries', 'solver_s', 'reached', 'paths', 'validated')
+        self.covers = set(); self.paths = 0; self.notes = []; self.validated = 0; self.witnesses = []; self.fam = {}; self.crosschecked = 0; self.cc_agree = 0; self.cc_unknown = 0
+    COUNTERS = ('obligations', 'discharged', 'queries', 'solver_s', 'reached', 'paths', 'validated', 'crosschecked', 'cc_agree', 'cc_unknown')
     def _reset_counters(self):
         for k in self.COUNTERS: setattr(self, k, 0)
         self.cex = []; self.inconclusive = []; self.samples = []; self.panics = {}; self.covers = set(); self.notes = []; self.witnesses = []; self.fam = {}
@@ -113,9 +115,30 @@ class JobCtx:
         s = self.solver; s.push(); s.add(*self.ex.pc_global); s.add(*pc); s.add(*extra)
         t = time.time(); r = s.check(); self.solver_s += time.time() - t; self.queries += 1
         m = s.model() if r == z3.sat else None
+        if CROSSCHECK and r != z3.unknown and self.crosschecked < CROSSCHECK_PER_JOB and (self.queries % 7 == 1 or r == z3.sat):
+            self._crosscheck(s, r)
         s.pop()
         if r == z3.unknown: raise Unsupported('closing query: solver returned unknown')
         return m
+    def _crosscheck(self, s, r):
+        """second solver: the closing query is exported as SMT-LIB2 and decided again by cvc5; a disagreement is inconclusive"""
+        import subprocess
+        d = os.path.join(build.BUILD, 'smt'); os.makedirs(d, exist_ok=True)
+        f = os.path.join(d, 'q%d_%d.smt2' % (os.getpid(), self.queries))
+        with open(f, 'w') as fh: fh.write('(set-logic ALL)\n' + s.to_smt2())
+        try:
+            out = subprocess.run(['cvc5', '--lang', 'smt2', '--tlimit', '30000', f], stdout=subprocess.PIPE, stderr=subprocess.PIPE, timeout=40).stdout.decode().strip().split('\n')[0]
+        except Exception as e:
+            out = 'error: %s' % e
+        finally:
+            try: os.unlink(f)
+            except OSError: pass
+        self.crosschecked += 1
+        want = 'sat' if r == z3.sat else 'unsat'
+        if out in ('sat', 'unsat'):
+            if out != want: raise Unsupported('SOLVER-DISAGREEMENT: z3 says %s, cvc5 says %s on a closing query' % (want, out))
+            self.cc_agree += 1
+        else: self.cc_unknown += 1
     def prove(self, pc, formula, clause, mk_cex=None):
         """obligation: pc ⇒ formula.  Returns True if discharged; records a counterexample otherwise."""
         self.obligations += 1
@@ -153,7 +176,7 @@ class JobCtx:
                     steps=ex.stats['steps'], calls=ex.stats['calls'], obligations=self.obligations, discharged=self.discharged,
                     closing_queries=self.queries, closing_solver_s=round(self.solver_s, 2), cex=self.cex, inconclusive=self.inconclusive,
                     samples=self.samples, reached=self.reached, panics=self.panics, covers=sorted(self.covers | ex.covers),
-                    fam=self.fam, witnesses=self.witnesses, fns=sorted(ex.used_fns), models=sorted(ex.used_models), wall_s=round(time.time() - self.t0, 2), notes=self.notes,
+                    crosschecked=self.crosschecked, cc_agree=self.cc_agree, cc_unknown=self.cc_unknown, fam=self.fam, witnesses=self.witnesses, fns=sorted(ex.used_fns), models=sorted(ex.used_models), wall_s=round(time.time() - self.t0, 2), notes=self.notes,
                     abstracted_products=ex.abstracted, validated=self.validated)
 
 _current_child_ctx = None
@@ -288,6 +311,7 @@ def run_check(prop, tier, seed, only=None, nproc=None):
               coverage=dict(states=max(1, tot('paths')), transitions=max(1, tot('exec_queries') + tot('closing_queries')),
                             traces_validated_against_impl=validated + tot('validated'), samples=samples[:12] or [dict(note='no samples')],
                             obligations=tot('obligations'), discharged=tot('discharged'),
+                            closing_queries_crosschecked_with_cvc5=tot('crosschecked'), cvc5_agreed=tot('cc_agree'), cvc5_unknown_or_timeout=tot('cc_unknown'),
                             solver_s=round(sum(float(r.get('exec_solver_s', 0) or 0) + float(r.get('closing_solver_s', 0) or 0) for r in results), 2),
                             symbolic_steps=tot('steps'), jobs=[dict((k, r.get(k)) for k in ('name', 'mode', 'paths', 'obligations', 'discharged', 'exec_queries', 'closing_queries', 'wall_s', 'panics', 'covers', 'notes', 'abstracted_products') if r.get(k) not in (None, [], {}, 0) or k == 'name') for r in results],
                             functions_encoded=sorted(set(f for r in results for f in r.get('fns', [])))[:400],
@@ -320,6 +344,9 @@ def main(argv):
     ap.add_argument('--replay', default=None)
     a = ap.parse_args(argv)
     seed = int(os.environ.get('VERIF_SEED', '0'))
+    if a.tier == 'thorough' and 'VERIF_CROSSCHECK' not in os.environ:
+        global CROSSCHECK
+        CROSSCHECK = True
     if a.replay:
         from . import replay
         d = json.load(open(a.replay)); build.snapshot()
